@@ -17,7 +17,7 @@ PROPS["C05"] = dict(
 
 PROPS["C03"] = dict(
     modules=["Proofs.C03"],
-    theorems=[],
+    theorems=['Goflow.C03.field_roundtrip', 'Goflow.C03.optionField_roundtrip', 'Goflow.C03.templateSet_roundtrip', 'Goflow.C03.optionsTemplateSet_roundtrip_v9', 'Goflow.C03.optionsTemplateSet_roundtrip_ipfix', 'Goflow.C03.record_roundtrip', 'Goflow.C03.encRecord_length_ge', 'Goflow.C03.dataSet_roundtrip', 'Goflow.C03.optionsDataSet_roundtrip', 'Goflow.C03.flowSet_roundtrip', 'Goflow.C03.messageCommon_roundtrip', 'Goflow.C03.roundtrip'],
     generators=[dict(name="C03", quick=1500, thorough=100000)],
     harness=["impl"],
 )
@@ -31,7 +31,7 @@ PROPS["C04"] = dict(
 
 PROPS["C07"] = dict(
     modules=["Proofs.C07"],
-    theorems=[],
+    theorems=['Goflow.C07.produce_order_v5', 'Goflow.C07.produce_length_v5', 'Goflow.C07.count_any_bytes_v5', 'Goflow.C07.produce_length_netflow', 'Goflow.C07.count_any_bytes_netflow', 'Goflow.C07.produce_length_sflow', 'Goflow.C07.no_output_on_fatal_error'],
     generators=[dict(name="C07", quick=60, thorough=4000)],
     harness=["impl"],
 )
@@ -45,14 +45,14 @@ PROPS["C10"] = dict(
 
 PROPS["C06"] = dict(
     modules=["Proofs.C06"],
-    theorems=[],
+    theorems=['Goflow.C06.templateKey_injective', 'Goflow.C06.store_refines', 'Goflow.C06.latest_wins', 'Goflow.C06.isolation', 'Goflow.C06.addTemplates_other', 'Goflow.C06.unknown_template', 'Goflow.C06.exporter_isolation'],
     generators=[dict(name="C06", quick=40, thorough=3000)],
     harness=["impl"],
 )
 
 PROPS["C08"] = dict(
     modules=["Proofs.C08"],
-    theorems=[],
+    theorems=['Goflow.C08.cases_match', 'Goflow.C08.decodeUNumber_eq', 'Goflow.C08.decodeUNumber_long', 'Goflow.C08.decodeUNumberLE_eq', 'Goflow.C08.writeDecoded_trunc', 'Goflow.C08.full_value', 'Goflow.C08.v9_time', 'Goflow.C08.ipfix_time', 'Goflow.C08.v5_sampling_14bit', 'Goflow.C08.v5_record_eq_ref'],
     generators=[dict(name="C08", quick=400, thorough=40000)],
     harness=["impl"],
 )
@@ -66,7 +66,14 @@ PROPS["C09"] = dict(
 
 PROPS["C11"] = dict(
     modules=["Proofs.C11"],
-    theorems=[],
+    theorems=['Goflow.C11.rates_refine', 'Goflow.C11.rate_zero_before_any', 'Goflow.C11.rate_of_message', 'Goflow.C11.rate_isolation', 'Goflow.C11.search_order', 'Goflow.C11.v5_rate'],
     generators=[dict(name="C11", quick=40, thorough=3000)],
+    harness=["impl"],
+)
+
+PROPS["C12"] = dict(
+    modules=["Proofs.C12"],
+    theorems=["Goflow.C12.reset_total", "Goflow.C12.pool_independent", "Goflow.C12.sflow_stateless"],
+    generators=[dict(name="C12", quick=60, thorough=4000)],
     harness=["impl"],
 )
